@@ -14,6 +14,22 @@ package format
 // result is compared (for other ASCII bytes the statement does not say what
 // "capitalised" does to a word such as "a-b": only "no error, no panic" is asserted).
 
+//verif:stub command-line-arguments.asciiUpper => verifAsciiUpperSpec
+
+// asciiUpper's byte loop forks three ways per symbolic template byte; in the
+// template harnesses it is replaced by its specification, built without
+// branching. That asciiUpper meets this specification is checked separately
+// (Verif_C20_asciiupper, harness H20d), so the composition is sound.
+func verifAsciiUpperSpec(s string) string {
+	b := make([]byte, len(s))
+	for i := 0; i < len(s); i++ {
+		c := s[i]
+		isLower := verifAnd(c >= 'a', c <= 'z')
+		b[i] = byte(verifIte(isLower, int(c)-32, int(c)))
+	}
+	return string(b)
+}
+
 const (
 	verifLowerCase = 1
 	verifUpperCase = 2
